@@ -72,6 +72,26 @@ fn emulated(sig: i32, ctx: usize, e: &mut Emit) {
             let r = signal_hook::low_level::emulate_default_handler(sig);
             e.line(&format!("ret={}", match r { Ok(()) => "ok".to_string(), Err(er) => format!("err({})", er.raw_os_error().unwrap_or(-1)) }));
         }
+        9 => {
+            // the signal is blocked, one instance of it is already pending (a second arrival while the first
+            // is being handled) and the application's own handler is installed: the emulation must give the
+            // signal its default action - the handler must not get the pending instance first
+            extern "C" fn bail(_: libc::c_int) {
+                unsafe { libc::_exit(42) }
+            }
+            unsafe {
+                let mut sa: libc::sigaction = std::mem::zeroed();
+                sa.sa_sigaction = bail as usize;
+                libc::sigaction(sig, &sa, std::ptr::null_mut());
+                let mut set: libc::sigset_t = std::mem::zeroed();
+                libc::sigemptyset(&mut set);
+                libc::sigaddset(&mut set, sig);
+                libc::sigprocmask(libc::SIG_BLOCK, &set, std::ptr::null_mut());
+                libc::raise(sig);
+            }
+            let r = signal_hook::low_level::emulate_default_handler(sig);
+            e.line(&format!("ret={}", match r { Ok(()) => "ok".to_string(), Err(er) => format!("err({})", er.raw_os_error().unwrap_or(-1)) }));
+        }
         5 | 6 => {
             // "does nothing else": the signal is blocked with one instance pending, under the application's
             // own handler (5) or the default disposition (6); afterwards the mask, the pending set and the
@@ -209,6 +229,7 @@ pub fn run(_tier: Tier) -> BResult {
         if s >= 1 && s <= 64 && s != libc::SIGKILL && s != libc::SIGSTOP && signal_hook::low_level::signal_name(s).is_some() {
             cells.push((s, 7, true));
             cells.push((s, 8, true));
+            cells.push((s, 9, true));
         }
         // blocked with a pending instance: only where the library must do nothing at all
         if s >= 1 && s <= 64 && s != 32 && s != 33 && signal_hook::low_level::signal_name(s).is_none() {
@@ -258,7 +279,7 @@ pub fn run(_tier: Tier) -> BResult {
         }
     }
     let native_of = |s: i32| -> Option<String> { cells.iter().position(|c| c.0 == s && !c.2).map(|i| res[i].0.clone()) };
-    let ctxn = ["normal context", "inside the signal's own action (signal blocked)", "inside its own action after unblocking it", "a delivery with register_conditional_default armed (condition true)", "a delivery with register_conditional_default not armed (condition false)", "normal context, signal blocked with one instance pending, application handler installed", "normal context, signal blocked with one instance pending, default disposition", "normal context while another signal (SIGUSR2 / SIGUSR1) is blocked and pending with its default disposition", "a second thread of a multi-threaded process (the main thread is alive and blocks nothing)"];
+    let ctxn = ["normal context", "inside the signal's own action (signal blocked)", "inside its own action after unblocking it", "a delivery with register_conditional_default armed (condition true)", "a delivery with register_conditional_default not armed (condition false)", "normal context, signal blocked with one instance pending, application handler installed", "normal context, signal blocked with one instance pending, default disposition", "normal context while another signal (SIGUSR2 / SIGUSR1) is blocked and pending with its default disposition", "a second thread of a multi-threaded process (the main thread is alive and blocks nothing)", "normal context, signal blocked with one instance already pending, an application handler installed that would end the process differently"];
     for (i, &(s, c, emu)) in cells.iter().enumerate() {
         if !emu {
             continue;
@@ -314,7 +335,7 @@ pub fn run(_tier: Tier) -> BResult {
         violations,
         exhaustive: true,
         caps: vec![],
-        rule: "complete grid: signal 1..64 + out-of-range numbers {0,-1,65,128,255,256,1000,MIN,MAX} + {256,512,2^16,2^24,-256,-2^16,MIN} + {TERM,TSTP,WINCH,KILL,STOP,CHLD} x context {normal, inside own action blocked, inside own action unblocked, delivery under register_conditional_default with the condition true / false; for known signals also: while another, terminating signal is blocked and pending, and from a second thread of a multi-threaded process; for signals without a known name also: blocked with one instance pending under an application handler / the default disposition, comparing mask, pending set, disposition and handler runs before and after}; each cell = an emulated child compared with a native child (SIG_DFL, unblock, raise) classified by waitpid(WUNTRACED) in a constructed non-orphaned process group; distinct = distinct (outcome class, return value, known?) tuples".into(),
+        rule: "complete grid: signal 1..64 + out-of-range numbers {0,-1,65,128,255,256,1000,MIN,MAX} + {256,512,2^16,2^24,-256,-2^16,MIN} + {TERM,TSTP,WINCH,KILL,STOP,CHLD} x context {normal, inside own action blocked, inside own action unblocked, delivery under register_conditional_default with the condition true / false; for known signals also: while another, terminating signal is blocked and pending, from a second thread of a multi-threaded process, and blocked with an instance already pending under an application handler (the handler must not get it); for signals without a known name also: blocked with one instance pending under an application handler / the default disposition, comparing mask, pending set, disposition and handler runs before and after}; each cell = an emulated child compared with a native child (SIG_DFL, unblock, raise) classified by waitpid(WUNTRACED) in a constructed non-orphaned process group; distinct = distinct (outcome class, return value, known?) tuples".into(),
         assumptions: vec!["the kernel's default disposition is observed, not tabulated".into(), "core dumps disabled in probes (RLIMIT_CORE=0)".into(), "KILL/STOP only from normal context; signals 32/33 (libc-internal) have no native probe".into()],
     }
 }
